@@ -420,10 +420,12 @@ Record book := mkBook {
   g_post : bool;
   g_h : bool;
   g_ps : bool;
-  spawn_res : option bool   (* Some true = Ok, Some false = Err *)
+  spawn_res : option bool;  (* Some true = Ok, Some false = Err *)
+  defsup : bool;            (* the actor keeps the library's default handle_supervisor_evt: stop when a child exits *)
+  supq : nat                (* terminal supervision events waiting in its supervision port *)
 }.
 
-Definition book0 : book := mkBook PhNone [] false false false None true true true true None.
+Definition book0 : book := mkBook PhNone [] false false false None true true true true None false O.
 
 Definition books := aid -> book.
 
@@ -433,13 +435,15 @@ Definition dinit : dstate := mkD init (fun _ => book0).
 
 Definition bupd (b : books) (a : aid) (x : book) : books := fun c => if c =? a then x else b c.
 
-Definition set_phs v (x : book) := mkBook v (queue x) (stop_req x) (abort_req x) (marker_sent x) (sup_arg x) (g_pre x) (g_post x) (g_h x) (g_ps x) (spawn_res x).
-Definition set_queue v (x : book) := mkBook (phs x) v (stop_req x) (abort_req x) (marker_sent x) (sup_arg x) (g_pre x) (g_post x) (g_h x) (g_ps x) (spawn_res x).
-Definition set_stop v (x : book) := mkBook (phs x) (queue x) v (abort_req x) (marker_sent x) (sup_arg x) (g_pre x) (g_post x) (g_h x) (g_ps x) (spawn_res x).
-Definition set_abort v (x : book) := mkBook (phs x) (queue x) (stop_req x) v (marker_sent x) (sup_arg x) (g_pre x) (g_post x) (g_h x) (g_ps x) (spawn_res x).
-Definition set_marker v (x : book) := mkBook (phs x) (queue x) (stop_req x) (abort_req x) v (sup_arg x) (g_pre x) (g_post x) (g_h x) (g_ps x) (spawn_res x).
-Definition set_res v (x : book) := mkBook (phs x) (queue x) (stop_req x) (abort_req x) (marker_sent x) (sup_arg x) (g_pre x) (g_post x) (g_h x) (g_ps x) v.
-Definition set_gates (a b c d : bool) (x : book) := mkBook (phs x) (queue x) (stop_req x) (abort_req x) (marker_sent x) (sup_arg x) a b c d (spawn_res x).
+Definition set_phs v (x : book) := mkBook v (queue x) (stop_req x) (abort_req x) (marker_sent x) (sup_arg x) (g_pre x) (g_post x) (g_h x) (g_ps x) (spawn_res x) (defsup x) (supq x).
+Definition set_queue v (x : book) := mkBook (phs x) v (stop_req x) (abort_req x) (marker_sent x) (sup_arg x) (g_pre x) (g_post x) (g_h x) (g_ps x) (spawn_res x) (defsup x) (supq x).
+Definition set_stop v (x : book) := mkBook (phs x) (queue x) v (abort_req x) (marker_sent x) (sup_arg x) (g_pre x) (g_post x) (g_h x) (g_ps x) (spawn_res x) (defsup x) (supq x).
+Definition set_abort v (x : book) := mkBook (phs x) (queue x) (stop_req x) v (marker_sent x) (sup_arg x) (g_pre x) (g_post x) (g_h x) (g_ps x) (spawn_res x) (defsup x) (supq x).
+Definition set_marker v (x : book) := mkBook (phs x) (queue x) (stop_req x) (abort_req x) v (sup_arg x) (g_pre x) (g_post x) (g_h x) (g_ps x) (spawn_res x) (defsup x) (supq x).
+Definition set_res v (x : book) := mkBook (phs x) (queue x) (stop_req x) (abort_req x) (marker_sent x) (sup_arg x) (g_pre x) (g_post x) (g_h x) (g_ps x) v (defsup x) (supq x).
+Definition set_gates (a b c d : bool) (x : book) := mkBook (phs x) (queue x) (stop_req x) (abort_req x) (marker_sent x) (sup_arg x) a b c d (spawn_res x) (defsup x) (supq x).
+Definition set_defsup v (x : book) := mkBook (phs x) (queue x) (stop_req x) (abort_req x) (marker_sent x) (sup_arg x) (g_pre x) (g_post x) (g_h x) (g_ps x) (spawn_res x) v (supq x).
+Definition set_supq v (x : book) := mkBook (phs x) (queue x) (stop_req x) (abort_req x) (marker_sent x) (sup_arg x) (g_pre x) (g_post x) (g_h x) (g_ps x) (spawn_res x) (defsup x) v.
 
 Inductive gate := GPre | GPost | GH | GPs.
 
@@ -450,6 +454,9 @@ Inductive dop :=
 | OKill (a : aid)
 | ODrain (a : aid)
 | OAbort (a : aid)
+| ODefSup (a : aid)      (* a was spawned with the default supervision handler *)
+| OStopKids (a : aid)    (* ActorCell::stop_children / stop_children_and_wait *)
+| ODrainKids (a : aid)   (* ActorCell::drain_children / drain_children_and_wait *)
 | ODropNow (a : aid)     (* the driver drops a's start future itself: the guard's cleanup runs inline, no settle *)
 | OLink (c p : aid)
 | OUnlink (c p : aid)
@@ -481,13 +488,28 @@ Section Driver.
   Definition alive_phase (p : phase) : bool :=
     match p with PhNone | PhGone => false | _ => true end.
 
+  (* a's terminal supervision event: sent by the cleanup's notify step to the supervisor a names when its
+     exit begins (its own terminate() does not change that), only for an actor whose spawn had returned
+     (marked running); a supervisor with the default handler will stop when it gets to the event *)
+  Definition started_phase (p : phase) : bool :=
+    match p with PhPost | PhLoop | PhHandler | PhPostStop => true | _ => false end.
+
+  Definition notify_sup (a : aid) (before : dstate) (b : books) : books :=
+    if started_phase (phs (bk before a)) then
+      match supervisor (core before a) with
+      | Some p =>
+          if defsup (b p) && alive_phase (phs (b p)) then bupd b p (set_supq (S (supq (b p))) (b p)) else b
+      | None => b
+      end
+    else b.
+
   (* the task exits now without post_stop: failure / cancellation / failed start *)
   Definition abrupt (a : aid) (d : dstate) (res : option bool) : dstate :=
     let s1 := stepR (LExitAbrupt a) (core d) in
     let s2 := stepR (LPostStopDone a) s1 in
     let s3 := run_own own_fuel a s2 in
     let b := bk d a in
-    mkD s3 (bupd (bk d) a (set_phs PhGone (set_queue [] (match res with Some r => set_res (Some r) b | None => b end)))).
+    mkD s3 (notify_sup a d (bupd (bk d) a (set_phs PhGone (set_queue [] (match res with Some r => set_res (Some r) b | None => b end))))).
 
   (* one scheduling decision for actor a; returns (progress?, state) *)
   Definition advance (a : aid) (d : dstate) : bool * dstate :=
@@ -507,8 +529,8 @@ Section Driver.
       if sig_visible (s a) then
         (* biased select: the signal port wins at the next await point *)
         let s1 := run_own own_fuel a s in
-        (true, mkD s1 (bupd (bk d) a (set_phs PhGone (set_queue []
-                 (match phs b with PhPre => set_res (Some false) b | _ => b end)))))
+        (true, mkD s1 (notify_sup a d (bupd (bk d) a (set_phs PhGone (set_queue []
+                 (match phs b with PhPre => set_res (Some false) b | _ => b end))))))
       else
       match phs b with
       | PhPre =>
@@ -529,18 +551,22 @@ Section Driver.
           if stop_req b then
             (true, mkD (stepR (LExitGraceful a) s) (bupd (bk d) a (set_phs PhPostStop b)))
           else
+          match supq b with
+          | S k => (true, mkD s (bupd (bk d) a (set_supq k (set_stop true b))))   (* default handler: myself.stop(None) *)
+          | O =>
           match queue b with
           | [] => (false, d)
           | MBlock :: q => (true, mkD s (bupd (bk d) a (set_phs PhHandler (set_queue q b))))
           | MErr :: q | MPanic :: q => (true, abrupt a d None)
           | MMarker :: q => (true, mkD (stepR (LExitGraceful a) s) (bupd (bk d) a (set_phs PhPostStop (set_queue q b))))
           end
+          end
       | PhHandler =>
           if g_h b then (true, mkD s (bupd (bk d) a (set_phs PhLoop b))) else (false, d)
       | PhPostStop =>
           if g_ps b then
             let s1 := run_own own_fuel a (stepR (LPostStopDone a) s) in
-            (true, mkD s1 (bupd (bk d) a (set_phs PhGone (set_queue [] b))))
+            (true, mkD s1 (notify_sup a d (bupd (bk d) a (set_phs PhGone (set_queue [] b)))))
           else (false, d)
       | _ => (false, d)
       end
@@ -569,6 +595,21 @@ Section Driver.
     | GPs => set_gates (g_pre b) (g_post b) (g_h b) true b
     end.
 
+  Definition d_stop (d : dstate) (a : aid) : dstate :=
+    let b := bk d a in
+    if alive_phase (phs b) then mkD (core d) (bupd (bk d) a (set_stop true b)) else d.
+
+  Definition d_drain (d : dstate) (a : aid) : dstate :=
+    let b := bk d a in
+    if alive_phase (phs b) then
+      mkD (stepR (LDrain a) (core d))
+          (if marker_sent b then bk d
+           else bupd (bk d) a (set_marker true (set_queue (queue b ++ [MMarker]) b)))
+    else d.
+
+  Definition kids_of (d : dstate) (a : aid) : list aid :=
+    match children (core d a) with Some l => l | None => [] end.
+
   Definition dstep (o : dop) (d : dstate) : dstate :=
     let s := core d in
     match o with
@@ -576,7 +617,7 @@ Section Driver.
         match phs (bk d a) with
         | PhNone =>
             mkD (stepR (LCreate a) s)
-                (bupd (bk d) a (mkBook PhNew [] false false false sup (negb pre) (negb post) false (negb ps) None))
+                (bupd (bk d) a (mkBook PhNew [] false false false sup (negb pre) (negb post) false (negb ps) None false O))
         | _ => d
         end
     | OSend a m =>
@@ -596,6 +637,9 @@ Section Driver.
     | OAbort a =>
         let b := bk d a in
         if alive_phase (phs b) then mkD s (bupd (bk d) a (set_abort true b)) else d
+    | ODefSup a => mkD s (bupd (bk d) a (set_defsup true (bk d a)))
+    | OStopKids a => fold_left d_stop (kids_of d a) d
+    | ODrainKids a => fold_left d_drain (kids_of d a) d
     | ODropNow a =>
         match phs (bk d a) with
         | PhPre => abrupt a d (Some false)
